@@ -75,8 +75,19 @@ fn parse_args_file(text: &str) -> Option<(Vec<i64>, Vec<u8>)> {
 /// Valid programs of kinds the generator cannot produce (its instance sets must stay finite):
 /// non-regular data and codata types used at finite depth, mutually recursive polymorphic types,
 /// type parameters swapped in the recursion, functions stored in non-regular data.  (name, source,
-/// expected stdout)
+/// expected stdout, optionally prefixed by `args|`).  The first two call `main` like an ordinary
+/// function (the translation treats `main` specially).
 pub const BUILTIN: &[(&str, &str, &str)] = &[
+    (
+        "builtin/main-called-from-another-definition",
+        "def helper(n: i64): i64 { 1 + main(n - 1) }\ndef main(n: i64): i64 { if n <= 0 { println_i64(0); 0 } else { let r: i64 = helper(n); println_i64(r); r } }\n",
+        "3|0\n1\n2\n3\n",
+    ),
+    (
+        "builtin/main-calls-itself",
+        "def main(n: i64, acc: i64): i64 { if n <= 0 { println_i64(acc); acc } else { main(n - 1, acc + n) } }\n",
+        "4 0|10\n",
+    ),
     (
         "builtin/nested-data",
         "data Nest[A] { Flat(x: A), Deep(xs: Nest[Nest[A]]) }\ndef f(n: Nest[i64]): i64 { n.case[i64] { Flat(x) => x, Deep(xs) => g(xs) } }\ndef g(n: Nest[Nest[i64]]): i64 { n.case[Nest[i64]] { Flat(x) => f(x), Deep(xs) => 7 } }\ndef main(): i64 { println_i64(f(Deep(Flat(Flat(5))))); 0 }\n",
@@ -107,7 +118,12 @@ pub const BUILTIN: &[(&str, &str, &str)] = &[
 pub fn load() -> Vec<CorpusProg> {
     let mut out = Vec::new();
     for (name, src, expected) in BUILTIN {
-        out.push(CorpusProg { name: name.to_string(), src: src.to_string(), args: vec![], expected: Some(expected.as_bytes().to_vec()) });
+        // "a b|stdout": arguments of main in front of the expected output
+        let (args, expected) = match expected.split_once('|') {
+            Some((a, e)) => (a.split_whitespace().map(|x| x.parse().unwrap()).collect(), e),
+            None => (vec![], *expected),
+        };
+        out.push(CorpusProg { name: name.to_string(), src: src.to_string(), args, expected: Some(expected.as_bytes().to_vec()) });
     }
     for dir in ["/repo/examples", "/repo/testsuite/end_to_end", "/repo/benchmarks/suite"] {
         let Ok(rd) = std::fs::read_dir(dir) else { continue };
